@@ -80,7 +80,9 @@ def make_repeat(n_ops):
             seen = []
             for k in range(n_ops):
                 n = choose(c, f"op{k}_file", names)
-                op = choose(c, f"op{k}_kind", ["lint", "parse", "render", "lint_whole_dir"])
+                # the whole-directory run is offered as the LAST operation only when there are 3 (keeps the thorough tier finite)
+                kinds = ["lint", "parse", "render"] + (["lint_whole_dir"] if (n_ops < 3 or k == n_ops - 1) else [])
+                op = choose(c, f"op{k}_kind", kinds)
                 L = lin if share_linter else Linter(config=FluffConfig(overrides={"dialect": "ansi"}))
                 p = os.path.join(d, n)
                 if op == "lint":
